@@ -281,6 +281,15 @@ def _subjects():
             if data is not None:
                 out.append((f"{modname}.py::{fn}", rel, (lambda b, f=f, rel=rel: f(io.BytesIO(b), rel.split("/")[-1])), data))
     try:
+        import sharepoint2text as top                      # the public wrappers of the package root
+        for modname, fn, fixtures in EXTRACTORS:
+            w = getattr(top, fn, None)
+            data = _fixture(fixtures[0])
+            if callable(w) and data is not None:
+                out.append((f"__init__.py::{fn}", fixtures[0], (lambda b, w=w, rel=fixtures[0]: w(io.BytesIO(b), rel.split("/")[-1])), data))
+    except Exception:  # noqa
+        pass
+    try:
         from sharepoint2text.parsing.extractors.util import encryption
         for rel in ("open_office/sample_document.odt", "open_office/sample_spreadsheet.ods"):
             data = _fixture(rel)
@@ -307,11 +316,46 @@ def _subjects():
     return out
 
 
-def native_order(only=None):
+def _hinted_subjects(targets):
+    """Functions named by the static analysis (e.g. the function that constructs a container outside the guard module): called
+    with a stream of a well-formed container in the usual extractor signatures."""
+    import importlib
+    out = []
+    datas = [(rel, _fixture(rel)) for rel in ("open_office/sample_document.odt", "modern_ms/headings.docx", "epub/sample.epub")]
+    datas = [(r, d) for r, d in datas if d is not None] + [("synthetic two-member zip", _zip_bytes([("a.txt", b"hello"), ("b/c.xml", b"<x/>")]))]
+    for t in targets or []:
+        try:
+            rel, qual = t
+            obj = importlib.import_module(rel[:-3].replace("/", "."))
+            for part in qual.split("."):
+                obj = getattr(obj, part)
+        except Exception:  # noqa
+            continue
+        if not callable(obj) or isinstance(obj, type) or "." in qual:
+            continue
+        for r, d in datas:
+            def call(b, obj=obj, r=r):
+                last = None
+                for args in ((io.BytesIO(b),), (io.BytesIO(b), r.split("/")[-1])):
+                    try:
+                        res = obj(*args)
+                        if hasattr(res, "__next__"):
+                            list(res)
+                        return res
+                    except TypeError as e:
+                        last = e
+                if last is not None:
+                    raise last
+            out.append((f"{rel.split('/')[-1]}::{qual}", r, call, d))
+    return out
+
+
+def native_order(only=None, extra_subjects=()):
     """Runs every ZIP-container entry point on a well-formed document and on the same document with a bomb member under the
     event monitor.  Failure = a member access on a container nobody validated, or a bomb that does not come back as
     ExtractionZipBombError."""
-    for target, rel, call, data in _subjects():
+    hinted = {id(x[2]) for x in extra_subjects}
+    for target, rel, call, data in list(extra_subjects) + _subjects():
         if only and not any(o in target for o in only):
             continue
         for label, payload in (("well-formed document", data), ("same document plus a 3,000,000-byte all-zero member", None)):
@@ -328,7 +372,7 @@ def native_order(only=None):
                         "expected": ORDER_EXPECT,
                         "observed": f"member `{nm}` opened on a container that was never validated ({len(mon.violations)} such access(es); "
                                     f"call ended with {res}); first events: {mon.trace()}"}
-            if label != "well-formed document" and res != "ExtractionZipBombError":
+            if label != "well-formed document" and res != "ExtractionZipBombError" and id(call) not in hinted:
                 return {"target": target, "inputs": {"fixture": "tests/resources/" + rel, "case": label},
                         "expected": "ExtractionZipBombError", "observed": res}
     return None
@@ -423,7 +467,8 @@ def find(req):
             names = [x for x in (hint.get("file"), "::" + hint["function"] if hint.get("function") else None) if x]
             mine = [t for (t, _r, _c, _d) in _subjects() if any(n in t for n in names)]
             only = names if mine else None
-        r = native_order(only) or (native_order() if only else None) or native_extractors()
+        extra = _hinted_subjects(hint.get("targets")) if isinstance(hint, dict) else []
+        r = (native_order(None, extra) if extra else None) or native_order(only) or (native_order() if only else None) or native_extractors()
         if r is not None:
             r.update(reproduced=True, found_by="runtime event monitor over the ZIP-container entry points")
             return r
